@@ -71,10 +71,15 @@ def queries(ctx, plant, case, res, where):
     """read-only queries; returns nothing, reports if reading twice differs"""
     for side, r in res.items():
         fc = r.multi_fuel_consumption_total_kg
-        a1 = fc.get_total_co2_emissions()
-        _ = fc.fuel_by_mass_fraction
-        _ = r.fuel_consumption_total_kg
-        a2 = fc.get_total_co2_emissions()
+        try:
+            from feems.fuel import FuelConsumerClassFuelEUMaritime as Cls
+            a1 = fc.get_total_co2_emissions(fuel_consumer_class=Cls.ICE)
+            _ = fc.fuel_by_mass_fraction
+            _ = r.fuel_consumption_total_kg
+            a2 = fc.get_total_co2_emissions(fuel_consumer_class=Cls.ICE)
+        except Exception as e:       # FuelEU factors of a gas fuel need the gas engine's class
+            ctx.count("query_rejected", core.error_class(e))
+            continue
         if not close(a1.tank_to_wake_kg_or_gco2eq_per_gfuel, a2.tank_to_wake_kg_or_gco2eq_per_gfuel):
             ctx.fail("predicate", "query-changes-answer", f"{side}: emissions {a1} then {a2}", where)
     if case["kind"] in ("electric", "hybrid", "mech_elec"):
@@ -158,7 +163,9 @@ def gen_history(rng, idx):
         elif rng.random() < 0.3:
             inp = copy.deepcopy(calcs[-1])                # the same calculation again
         calcs.append(inp)
-    return {"idx": idx, "kind": kind, "spec": base["spec"], "calcs": calcs, "query_between": [bool(rng.random() < 0.6) for _ in calcs]}
+    fuel_eu_ok = not any(c["kind"] == "coges" for c in base["spec"].get("electric", []))       # no FuelEU class for COGAS
+    return {"idx": idx, "kind": kind, "spec": base["spec"], "calcs": calcs, "query_between": [bool(rng.random() < 0.6) for _ in calcs],
+            "spec_by": [str(rng.choice(["IMO", "FUEL_EU_MARITIME"])) if fuel_eu_ok else "IMO" for _ in calcs]}
 
 
 def run_history(ctx, hist, model=True):
@@ -174,6 +181,8 @@ def run_history(ctx, hist, model=True):
     ok = False
     for k, inp in enumerate(hist["calcs"]):
         case = {"idx": hist["idx"], "kind": hist["kind"], "spec": hist["spec"], "inputs": inp}
+        sb = FuelSpecifiedBy[(hist.get("spec_by") or ["IMO"] * len(hist["calcs"]))[k]]
+        ctx.count("factors", sb.name)
         try:
             # apply the inputs, remember the caller's arrays, balance on the REUSED object
             if hist["kind"] == "electric":
@@ -192,7 +201,7 @@ def run_history(ctx, hist, model=True):
             else:
                 plant.system.do_power_balance_calculation()
             out_reused = outputs_of(plant, case)
-            res_reused = R.system_results(plant, case, FuelSpecifiedBy.IMO)
+            res_reused = R.system_results(plant, case, sb)
         except Exception as e:
             # the same inputs on a fresh object must be rejected as well
             try:
@@ -218,7 +227,7 @@ def run_history(ctx, hist, model=True):
         # (ii) fresh object, same inputs
         fresh = R.run_plant(case)
         out_fresh = outputs_of(fresh, case)
-        res_fresh = R.system_results(fresh, case, FuelSpecifiedBy.IMO)
+        res_fresh = R.system_results(fresh, case, sb)
         bad = outputs_differ(out_reused, out_fresh)
         if bad:
             ctx.fail("predicate", "trace-of-earlier-calculation-in-balance", f"calculation {k}: reused object differs from a fresh one in {bad[:5]}", where)
@@ -229,7 +238,16 @@ def run_history(ctx, hist, model=True):
         if hist["query_between"][k]:
             queries(ctx, plant, case, res_reused, where)
             ctx.count("query", "totals+emissions+fractions")
-        res_again = R.system_results(plant, case, FuelSpecifiedBy.IMO)
+        try:      # the same balanced state read under the other set of factors in between (not offered for every fuel)
+            R.system_results(plant, case, FuelSpecifiedBy.FUEL_EU_MARITIME if sb == FuelSpecifiedBy.IMO else FuelSpecifiedBy.IMO)
+            ctx.count("query", "other-factor-set")
+        except Exception:
+            pass
+        try:
+            res_again = R.system_results(plant, case, sb)
+        except Exception as e:
+            ctx.fail("predicate", "reading-results-again-raises-" + core.error_class(e), f"calculation {k}: the result could be read once, the second reading raises {type(e).__name__}: {e}", where)
+            continue
         bad = results_differ(res_reused, res_again)
         if bad:
             ctx.fail("predicate", "reading-results-changes-them", f"calculation {k}: {bad[:5]}", where)
